@@ -3,6 +3,8 @@ import os, resource, shutil, signal, subprocess, tempfile
 from .. import core, progdiff
 from ..gen import Lib, ProgGen
 
+PROOF_MODULES = ['Resynth.Props.C19', 'Resynth.Props.C08Batch']
+
 RULE = ("for each program the real binary runs under RLIMIT_FSIZE = k (SIGXFSZ ignored, so write(2) returns a short count and "
         "then EFBIG) for EVERY k from 0 to the full output length on small programs and for strided k plus every BufWriter "
         "boundary (multiples of 8192) +-1 on programs larger than several buffers; each run must exit non-zero with a "
